@@ -297,13 +297,17 @@ def check(run, replay=None):
         rc, io, se = run_lines(exes[tag], lines)
         rcm, mo, _ = run_lines(model + (" checked" if tag == "checked" else ""), lines)
         if rc != 0:
-            # find the crashing program
-            for l in lines:
+            # the harness handles one program per line: the first line without output is the crashing one
+            nout = len([x for x in io if x.strip()])
+            cand = lines[nout:nout + 1] + lines[max(0, nout - 1):nout]
+            for l in cand:
                 r1, o1, e1 = run_lines(exes[tag], [l], 60)
                 if r1 != 0:
-                    run.finding("crash:%s" % tag, "counterexample", "view program [%s] crashes the %s build: %s" % (l, tag, e1.strip().split("\n")[:2]),
+                    run.finding("crash:%s" % tag, "counterexample", "view program [%s] crashes the %s build: %s" % (l, tag, [x for x in e1.strip().split("\n") if "ERROR" in x or "SUMMARY" in x][:2]),
                                 {"case": l, "build": tag})
                     break
+            else:
+                run.finding("crash:%s" % tag, "counterexample", "the %s build of the view harness died (rc=%d) but no single program reproduces it" % (tag, rc), {"build": tag, "stderr": se[-1500:]})
             continue
         for (l, dims, den), a, b in zip(progs, mo, io):
             cov["evaluations"] += 1
